@@ -17,6 +17,8 @@ pub enum Ans {
     Interrupted,
     /// non-retryable failure; sticky
     Hard,
+    /// non-retryable failure for this one call; later calls are accepted again
+    HardOnce,
 }
 
 struct ScriptedSink<'a> {
@@ -54,6 +56,7 @@ impl Write for ScriptedSink<'_> {
                 self.failed = true;
                 Err(Error::new(ErrorKind::Other, "injected hard failure"))
             }
+            Some(Ans::HardOnce) => Err(Error::new(ErrorKind::Other, "injected hard failure (this call only)")),
         }
     }
     fn flush(&mut self) -> std::io::Result<()> {
@@ -86,6 +89,7 @@ fn ans_json(a: &Ans) -> Value {
         Ans::Zero => json!("ok0"),
         Ans::Interrupted => json!("interrupted"),
         Ans::Hard => json!("hard-error"),
+        Ans::HardOnce => json!("hard-error-once"),
     }
 }
 fn ans_from(v: &Value) -> Ans {
@@ -95,6 +99,7 @@ fn ans_from(v: &Value) -> Ans {
         match v.as_str().unwrap_or("") {
             "ok0" => Ans::Zero,
             "interrupted" => Ans::Interrupted,
+            "hard-error-once" => Ans::HardOnce,
             _ => Ans::Hard,
         }
     }
@@ -120,7 +125,7 @@ fn check(lines: &[Line], mapping: &[u8], canonical: &[u8], script: &[(usize, Ans
         }
     };
     acc.observations += 1;
-    let fatal = script.iter().any(|(_, a)| matches!(a, Ans::Hard | Ans::Zero));
+    let fatal = script.iter().any(|(_, a)| matches!(a, Ans::Hard | Ans::HardOnce | Ans::Zero));
     let is_prefix = canonical.starts_with(&run.accepted);
     acc.outcome(h64(&(run.ok, run.accepted.len(), run.calls.len())), !script.is_empty() || limit > 0);
     if run.ok && run.accepted != canonical {
@@ -164,6 +169,7 @@ fn alternatives(len: usize) -> Vec<Ans> {
     }
     v.push(Ans::Interrupted);
     v.push(Ans::Hard);
+    v.push(Ans::HardOnce);
     v
 }
 
@@ -270,8 +276,8 @@ pub fn run(tier: Tier) -> i32 {
         prop: "C15",
         tier,
         level: "fault_enumeration",
-        rule: format!("{} mappings (each padding site exercised / not exercised, 0 classes) x all sink scripts with <= {} deviations from 'accept everything' (per call: accept 1, 2, 3 or len-1 bytes; Ok(0); Interrupted; sticky hard error), enumerated by run-record-branch to completion, plus uniform sinks accepting at most k = 1..16 bytes per call with and without a hard failure in the middle. Oracle: Ok => accepted bytes == canonical; hard failure or Ok(0) injected => Err; accepted bytes always a prefix of canonical; short writes / Interrupted alone never make the write fail. evaluations = scripts executed; distinct = distinct (result, accepted length, number of calls)", nsub, bound),
-        bounds: json!({"mappings": nsub, "deviation_bound": bound, "alternatives_per_call": "short(1,2,3,len-1), Ok(0), Interrupted, hard"}),
+        rule: format!("{} mappings (each padding site exercised / not exercised, 0 classes) x all sink scripts with <= {} deviations from 'accept everything' (per call: accept 1, 2, 3 or len-1 bytes; Ok(0); Interrupted; sticky hard error; hard error for that one call only), enumerated by run-record-branch to completion, plus uniform sinks accepting at most k = 1..16 bytes per call with and without a hard failure in the middle. Oracle: Ok => accepted bytes == canonical; hard failure or Ok(0) injected => Err; accepted bytes always a prefix of canonical; short writes / Interrupted alone never make the write fail. evaluations = scripts executed; distinct = distinct (result, accepted length, number of calls)", nsub, bound),
+        bounds: json!({"mappings": nsub, "deviation_bound": bound, "alternatives_per_call": "short(1,2,3,len-1), Ok(0), Interrupted, hard (sticky), hard (once)"}),
         assumptions: vec!["canonical = the bytes the same build writes into a Vec".into(), "Ok(0) on a non-empty buffer counts as a non-retryable failure (std::io::Write::write_all reports WriteZero)".into()],
         trusted_base: vec!["rustc/std".into(), "the scripted sink in pgmc/src/props/c15.rs".into()],
     };
